@@ -2,6 +2,7 @@ import ParryModel.C09.Theorems1
 import ParryModel.C09.Theorems6
 import ParryModel.C09.Theorems7
 import ParryModel.C09.Theorems8
+import ParryModel.C09.Theorems9
 /-!
 # C09 property theorems (index).
 * `Theorems1` — interval enclosures (`+ - neg *`, enclose, intersect), box algebra, `scaled`, `transform_by`, composites
@@ -13,4 +14,5 @@ import ParryModel.C09.Theorems8
 * `Theorems6` — `find_root_intervals` covers every root (any budget, any thresholds)
 * `Theorems7` — the `IntervalFunction` contract holds for the polynomial family (non-vacuity of `Theorems6`)
 * `Theorems8` — `Interval::sin` / `Interval::cos` over ℝ
+* `Theorems9` — Ball, Cuboid, Capsule boxes contain the posed shape
 -/
